@@ -15,7 +15,8 @@
 //        -> "<status> lens=<rle> total=<n> crc=<crc32 hex>"     (status: err:<class>@queue)
 //   reader <comp> <fd|buf> <ibs> <path>
 //        whole osmium::io::Reader on an OPL file (format "opl" + compression), counts objects and watches
-//        offset() <= file_size() after every buffer -> "ok objects=<n> off=<n> fsize=<n> offbad=<0|1>" | "err:<class>"
+//        offset() <= file_size() after every buffer
+//        -> "ok objects=<n> ids=<crc32 of "<type char><id>;" for every object in order> off=<n> fsize=<n> offbad=<0|1>" | "err:<class>"
 //   wr <comp> <ibs> <outpath> <inpath> <piece>
 //        CompressionFactory::create_compressor(comp, fd, fsync::no); the bytes of <inpath> written in pieces of
 //        <piece> bytes (0 = one write; an empty input gives one write("") call); close()
@@ -33,6 +34,8 @@
 #include <osmium/io/opl_input.hpp>
 #include <osmium/io/reader.hpp>
 #include <osmium/memory/buffer.hpp>
+#include <osmium/osm/item_type.hpp>
+#include <osmium/osm/object.hpp>
 
 #include <zlib.h>
 
@@ -239,17 +242,23 @@ static std::string op_reader(const std::string& comp, const std::string& mode, c
         if (mode != "buf") fsize = reader.file_size();
         std::size_t n = 0;
         bool offbad = false;
+        unsigned long idcrc = ::crc32(0L, Z_NULL, 0);
         while (osmium::memory::Buffer buffer = reader.read()) {
             for (const auto& item : buffer) {
-                (void)item;
                 ++n;
+                std::string t(1, osmium::item_type_to_char(item.type()));
+                if (item.type() == osmium::item_type::node || item.type() == osmium::item_type::way || item.type() == osmium::item_type::relation) {
+                    t += std::to_string(static_cast<const osmium::OSMObject&>(item).id());
+                }
+                t += ';';
+                idcrc = ::crc32(idcrc, reinterpret_cast<const Bytef*>(t.data()), static_cast<uInt>(t.size()));
             }
             if (reader.offset() > fsize) offbad = true;
         }
         const std::size_t off = reader.offset();
         if (off > fsize) offbad = true;
         reader.close();
-        return "ok objects=" + std::to_string(n) + " off=" + std::to_string(off) + " fsize=" + std::to_string(fsize) + " offbad=" + (offbad ? "1" : "0");
+        return "ok objects=" + std::to_string(n) + " ids=" + hex32(idcrc) + " off=" + std::to_string(off) + " fsize=" + std::to_string(fsize) + " offbad=" + (offbad ? "1" : "0");
     } catch (const std::exception& e) {
         return "err:" + err_class(e);
     }
